@@ -141,6 +141,19 @@ func run(t *testing.T, typ uint16) {
 		rew.TokenType = other
 		check(t, s, xv, rew, "other-type-issuer-type-rewritten", honest)
 		check(t, s, v, rew, "type-rewritten", honest)
+		// other values of the type field (the type is part of the authenticator input, big-endian): the byte-swapped own and
+		// other type, reserved and random values; each once on the honest token (authenticator no longer matches) and once
+		// with the authenticator recomputed through circl for the fields as carried (matches)
+		for _, tv := range []uint16{typ<<8 | typ>>8, other<<8 | other>>8, 0x0000, 0xffff, 0x0002, 0x0003, uint16(gen.Uniform(t, 65536, "randomType"))} {
+			if tv == typ {
+				continue
+			}
+			xt := tok
+			xt.TokenType = tv
+			check(t, s, v, xt, "type-field-other-value", honest)
+			xt.Authenticator = gen.VOPRFOutput(suiteOf[typ], sess.OKey, gen.AuthInput(tv, tok.Nonce, sess.Challenge, tok.KeyID))
+			check(t, s, v, xt, "type-field-other-value-authenticator-recomputed", honest)
+		}
 		// field-length variants (the concatenation decides)
 		cat := honest[2:98]
 		for i := 0; i < 12; i++ {
